@@ -1,0 +1,29 @@
+//go:build verif
+
+// Contracts for deductive verification (comment-only; read by /verif/govc, never compiled into the product).
+
+package executorcmd
+
+// C16: a device reply is accepted (err == nil) only if it is ok, executor-triggered, for the same event and in the
+// expected state; in every other case the state handed on is the reply's state (or "" when there is no reply).
+//@ func (r *RpcClient) doTransition(ei transitioner.EventInfo) (newState string, err error)
+//@   property C16
+//@   opt strings=uf
+//@   requires r != nil
+//@   ghostvar rpcErr bool = false
+//@   ghostvar reply *pb.TransitionReply = nil
+//@   ghostvar called bool = false
+//@   on aftercall .Transition : assert !called ; called = true ; rpcErr = (result1 != nil) ; reply = result0
+//@   ensures called
+//@   ensures rpcErr ==> err != nil && newState == ""
+//@   ensures !rpcErr && reply == nil ==> err != nil && newState == ""
+//@   ensures !rpcErr && reply != nil && reply.Ok && reply.Trigger == pb.StateChangeTrigger_EXECUTOR &&
+//@           reply.TransitionEvent == ei.Evt && reply.State == ei.Dst ==> err == nil && newState == ei.Dst
+//@   ensures !rpcErr && reply != nil && !(reply.Ok && reply.Trigger == pb.StateChangeTrigger_EXECUTOR &&
+//@           reply.TransitionEvent == ei.Evt && reply.State == ei.Dst) ==> err != nil && newState == reply.State
+//@   ensures err == nil ==> newState == ei.Dst
+
+// the argument-building closure only reads ei and allocates the request's argument list
+//@ closure (*RpcClient).doTransition #1
+//@   noverify
+//@   modifies nothing
